@@ -38,6 +38,13 @@ RULE = ("seeded random shot lists (repetitions, idle qubits, single shot, all-eq
         "one Measurements object asked with equal-valued operators of several coefficient types, the parity bit array in every "
         "integer dtype and bool (up to 300 marked ones), marked qubits as numpy ints; "
         "second route: expectation values from the parity tallies; "
+        "DEGENERATE DENOMINATORS on every route: 0 / 1 / 2 shots x both Bessel settings x operators (several terms with constants, constants "
+        "only, one term as PauliTerm / PauliSum, rescaled, typed bits / coefficients) for get_expectation_values and the parity tallies, every "
+        "one-shot get_expectation_values case of every stream is asked again with the other flag, ONE Measurements object shrinking to one "
+        "shot / to none and growing again, frequencies with total 0 / 1 / 2 (all-zero dict, Counter, numpy counts, empty dict; ONE dict whose "
+        "total passes through 0), Parities objects with [0, 0] tallies next to terms with 1 / 2 / many samples -> "
+        "get_expectation_values_from_parities: wherever the divisor of a reported quantity is 0 a FINITE report is a failure (nan / inf / an "
+        "exception are accepted); "
         "distinct = distinct canonical JSON of the case")
 TRUSTED = [
     "numpy integer/float array arithmetic (sum, *, /, %, fancy indexing, reshape, 1-d broadcasting) computes the "
@@ -49,6 +56,8 @@ TRUSTED = [
     "RuntimeError on {} or on keys of different lengths (its own behaviour belongs to C17)",
     "CPython int/int true division is within a RELATIVE 1e-12 of the exact quotient (distribution entries compared with that tolerance)",
     "PauliTerm.qubits is a set of distinct non-negative ints (hypothesis Nodup in the Lean theorems)",
+    "degenerate denominators: math.isfinite on the real and imaginary part of a reported entry decides whether a number was reported; "
+    "numpy's x / 0 on arrays yields nan (0 / 0) or +/-inf with a RuntimeWarning (suppressed), which the oracle reads as 'no value'",
     "number types: True == 1 and a numpy integer / bool equal to 0 or 1 IS that bit (int(b), hash and == agree with the Python int); numpy "
     "scalar arithmetic against Python numbers keeps the numpy type (NEP 50), and is exact where the result is representable in it - "
     "typed cases are generated so that it is, hence the model (exact rationals) answers them like any other case",
@@ -64,6 +73,19 @@ ASSUMPTIONS = ["coefficients are real; bits are 0/1; the eigenvalue of Z on bit 
                "KNOWN FINDING frequencies-narrow-numpy-int-total-wraps: get_expectation_value_from_frequencies with frequencies given as "
                "numpy integers of a width their TOTAL does not fit (sum() of numpy scalars wraps: {'01': np.uint8(200), '11': np.uint8(100)} "
                "gives 2.27); one corpus case holds it, generated typed frequencies have totals inside the type",
+               "degenerate denominators (recorded on the unchanged library): one shot with use_bessel_correction=True reports correct values and "
+               "correlations and a covariance matrix whose every entry is nan+nanj (0/0; also for constant-only operators); 0 shots: "
+               "get_expectation_values raises IndexError with either flag (nothing reported), get_parities_from_measurements raises IndexError "
+               "(known finding parities-zero-shots-raise, unchanged), get_distribution raises RuntimeError; frequencies that are all 0 give nan, an "
+               "empty frequency dict raises IndexError; get_expectation_values_from_parities raises ValueError as soon as one term has tallies "
+               "[0, 0].  The property's quotients have no value there: the oracle accepts an exception or a non-finite entry and rejects a finite "
+               "one (sample means / correlations of non-constant terms and every plain covariance at 0 shots, every covariance at 1 shot with "
+               "Bessel's correction, the mean from frequencies with total 0, value and variance of a term with tallies [0, 0]); it does NOT judge a "
+               "constant term's own value at 0 shots (the property gives it its coefficient) nor WHICH non-finite value / exception is chosen; "
+               "an exception for one shot with Bessel's correction stays a failure as before (values and correlations have values there)",
+               "Parities objects handed to get_expectation_values_from_parities hold an N x 2 numpy array of non-negative int / float tallies "
+               "(as get_parities_from_measurements builds them); only its values are judged ((even - odd) / (even + odd)), and value + variance "
+               "of terms without samples - its variance bound 1/N for few samples is not a sentence of the property",
                "theorems are over an arbitrary field of characteristic 0; the driver evaluates the same definitions at Rat"]
 TOL = 1e-9
 REL = Fraction(1, 10 ** 12)     # rounding allowance relative to the natural scale of an entry (about 4500 ulp)
@@ -225,6 +247,14 @@ def corpus():
         {"kind": "freq", "marked": [0], "freq": [["01", 200], ["11", 100]], "freq_as": "np:uint8!", "finding_class": "frequencies-narrow-numpy-int-total-wraps"},
         {"kind": "freq", "marked": [1, 0], "freq": [["01", 100], ["11", 27], ["10", 0]], "freq_as": "np:int8", "marked_as": "nptuple"},
         {"kind": "parity_vec", "rows": ["111", "110", "000"], "marked": [0, 1, 2], "dtype": "bool"},
+        # ---- degenerate denominators: one shot with Bessel's correction (divisor N - 1 = 0) for several terms with a constant among
+        #      them, all-zero frequencies (total 0), a term without samples in the parity tallies: never a finite number
+        {"kind": "ev", "shots": ["101"], "bessel": True, "exact": False, "degenerate": "shots=1",
+         "terms": [_t(2, z(0)), _t(-3, z(0, 2)), _t(Fraction(1, 2), []), _t(0, z(1))]},
+        {"kind": "ev", "shots": ["10"], "bessel": False, "exact": False, "degenerate": "shots=1", "terms": [_t(Fraction(1, 2), []), _t(2, [])]},
+        {"kind": "freq", "marked": [1], "freq": [["01", 0], ["11", 0], ["00", 0]], "freq_as": "Counter", "degenerate": "total=0"},
+        {"kind": "from_parities", "tallies": [[3, 1], [0, 0], [1, 0]], "dtype": "int", "pairs": False, "degenerate": "tally=0"},
+        {"kind": "from_parities", "tallies": [[3, 1], [0, 2], [1, 0]], "dtype": "float", "pairs": True, "degenerate": "tally>0"},
         # ---- one Measurements object asked for the same operator at three magnitudes
         {"kind": "history", "init": [["00", "01", "11", "01", "10"]],
          "operators": [[_t(2, z(0)), _t(-1, z(0, 1))], [_t(Fraction(2, 2 ** 40), z(0)), _t(Fraction(-1, 2 ** 40), z(0, 1))],
@@ -882,6 +912,99 @@ def _types(rng, big):
     return cases
 
 
+def _degenerate(rng, big):
+    """DEGENERATE DENOMINATORS on every route: the number of shots (sample means, correlations, plain covariances, the empirical
+    distribution), one less (Bessel's correction), the total of the frequencies, the tallies of one term - each AT 0 and right
+    next to it (1, 2), for several operators (several terms with constants among them, constants only, one term as PauliTerm /
+    PauliSum, repeated supports, zero coefficients, other magnitudes, typed bits / coefficients), on fresh objects and on ONE
+    long-lived Measurements object / frequency dict that passes through the degenerate content"""
+    cases = []
+    z = lambda *qs: [[q, "Z"] for q in qs]  # noqa: E731
+
+    def operators(w):
+        full = _terms(rng, w, rng.randrange(3, 6), True)
+        full.insert(rng.randrange(len(full) + 1), {"coeff": rat(_dyadic(rng) or Fraction(5, 2)), "ops": []})
+        a, b = rng.randrange(w), rng.randrange(w)
+        full += [{"coeff": rat(_dyadic(rng) or Fraction(1)), "ops": z(a)}, {"coeff": rat(_dyadic(rng) or Fraction(-3)), "ops": z(*dict.fromkeys([a, b]))}]
+        const = [{"coeff": rat(x), "ops": []} for x in rng.sample([Fraction(1, 2), Fraction(2), Fraction(-3), Fraction(0)], rng.randrange(1, 4))]
+        one = [{"coeff": rat(_dyadic(rng) or Fraction(3, 2)), "ops": z(*rng.sample(range(w), rng.randrange(1, w + 1)))}]
+        scaled, _ = _rescale(rng, full[: rng.randrange(2, len(full) + 1)], rng.choice(["pow2", "mixed2"]))
+        return [("full", full), ("const", const), ("one", one), ("scaled", scaled)]
+
+    for rep in range(3 if big else 1):
+        for n in (0, 1, 2):
+            w = rng.randrange(1, 6)
+            shots = _shots(rng, w, n) if n else []
+            if n == 2 and rng.random() < 0.7 and shots[0] == shots[1]:
+                shots[1] = _flip(shots[1], rng.randrange(w))
+            for name, terms in operators(w):
+                for bessel in (False, True):
+                    c = {"kind": "ev", "shots": list(shots), "terms": terms, "bessel": bessel, "exact": False, "degenerate": f"shots={n}"}
+                    if name == "one":
+                        c["single"] = bessel
+                    if name == "full" and n and rng.random() < 0.5:
+                        c["coef"] = rng.choice(["int", "np"]) if all(unrat(t["coeff"]).denominator == 1 for t in terms) else "arith"
+                    if name == "const" and n and rng.random() < 0.5:
+                        c["bit_ty"] = rng.choice(["bool", "uint8", "arr:int8"])
+                    cases.append(c)
+                cases.append({"kind": "parities", "shots": list(shots), "terms": terms, "degenerate": f"shots={n}"})
+            cases.append({"kind": "dist", "shots": list(shots), "degenerate": f"shots={n}"})
+    # -- ONE Measurements object that shrinks to one shot, to none, and grows again; both flags at every size
+    for rep in range(6 if big else 2):
+        w = rng.randrange(1, 5)
+        ops = [t for _, t in operators(w)][:2]
+        init = _shots(rng, w, 3)
+        both = lambda op: [{"do": "ev", "op": op, "bessel": b} for b in rng.sample([False, True], 2)]  # noqa: E731
+        steps = both(0) + [{"do": "swap", "drop": 2, "shots": []}] + both(0) + both(1) + [{"do": "parities", "op": 0}, {"do": "dist"}]
+        steps += [{"do": "extend", "shots": _shots(rng, w, 1)}] + both(0) + [{"do": "swap", "drop": 2, "shots": []}] + both(rep % 2) + [{"do": "parities", "op": 1}]
+        steps += [{"do": "new", "shots": _shots(rng, w, 1)}] + both(1) + [{"do": "counts"}, {"do": "add_counts", "counts": [[init[0], 1]]}] + both(0)
+        cases.append({"kind": "history", "init": [init], "init_via": [rng.choice(["list", "from_counts"])], "operators": ops, "steps": steps,
+                      "degenerate": "history"})
+    # -- frequencies whose total is 0 (every frequency 0; no keys at all), next to totals of 1 and 2
+    for rep in range(12 if big else 6):
+        w = rng.randrange(1, 6)
+        keys = list(dict.fromkeys(_shots(rng, w, rng.randrange(1, 5))))
+        marked = rng.sample(range(w), rng.randrange(0, w + 1))
+        form = rng.choice([None, "Counter", "OrderedDict", "np", "np:uint8"])
+        for tot in (0, 0, 1, 2)[rep % 2:][:3]:
+            vals = [0] * len(keys)
+            for _ in range(tot):
+                vals[rng.randrange(len(keys))] += 1
+            c = {"kind": "freq", "marked": marked, "freq": [[kk, v] for kk, v in zip(keys, vals)], "degenerate": f"total={tot}",
+                 "marked_as": rng.choice(["tuple", "frozenset", "set", "list"])}
+            if form:
+                c["freq_as"] = form
+            cases.append(c)
+    cases.append({"kind": "freq", "marked": [0] if rng.random() < 0.5 else [], "freq": [], "degenerate": "total=0"})
+    for rep in range(4 if big else 2):  # ONE dict whose total passes through 0
+        w = rng.randrange(1, 5)
+        keys = list(dict.fromkeys(_shots(rng, w, 3)))
+        marked = rng.sample(range(w), rng.randrange(1, w + 1))
+        steps = [{"do": "query", "marked": marked}]
+        for kk in keys:
+            steps.append({"do": "set", "key": kk, "value": 0})
+        steps += [{"do": "query", "marked": marked}, {"do": "query", "marked": [], "as_set": True},
+                  {"do": "set", "key": rng.choice(keys), "value": 1}, {"do": "query", "marked": marked},
+                  {"do": "copy"}, {"do": "set", "key": keys[0], "value": 0}, {"do": "query", "marked": marked}]
+        cases.append({"kind": "freq_history", "freq": [[kk, rng.randrange(1, 4)] for kk in keys], "steps": steps, "degenerate": "history"})
+    # -- parity tallies -> expectation values: terms without any sample next to terms with 1, 2, many
+    for rep in range(24 if big else 10):
+        nt = rng.randrange(1, 6)
+        tallies = []
+        for i in range(nt):
+            tot = rng.choice([0, 1, 2, 3, 100, 257])
+            e = rng.randrange(tot + 1)
+            tallies.append([e, tot - e])
+        if rep % 3 == 0:
+            tallies[rng.randrange(nt)] = [0, 0]
+        elif rep % 3 == 1:
+            tallies = [t if t[0] + t[1] else [1, 0] for t in tallies]
+        c = {"kind": "from_parities", "tallies": tallies, "dtype": rng.choice(["int", "float", "int32", "uint8" if max(sum(t) for t in tallies) < 256 else "int"]),  # the tallies AND their totals fit the type
+             "pairs": rng.random() < 0.5, "degenerate": "tally=0" if any(t[0] + t[1] == 0 for t in tallies) else "tally>0"}
+        cases.append(c)
+    return cases
+
+
 def generate(rng, tier):
     big = tier == "thorough"
     maxw, maxn, maxt = (8, 200, 7) if big else (6, 60, 5)
@@ -993,6 +1116,8 @@ def generate(rng, tier):
     cases += _forms(_random.Random(rng.getrandbits(64)), big)
     # ---- number types of bits / counts / coefficients / bit arrays (a fresh generator: the streams above stay as they were)
     cases += _types(_random.Random(rng.getrandbits(64)), big)
+    # ---- degenerate denominators (0 / 1 / 2 shots x both Bessel settings, zero totals, zero tallies) on every route
+    cases += _degenerate(_random.Random(rng.getrandbits(64)), big)
     return cases
 
 
@@ -1401,7 +1526,7 @@ def _obs_ev(m, op, bessel, held=None):
     """the call, then the same objects again with the other flag, then with the first flag once more"""
     held = held if held is not None else _Held()
     out = _ev_once(m, op, bessel, held)
-    if 2 <= len(m.bitstrings) <= 40000:
+    if 1 <= len(m.bitstrings) <= 40000:  # with ONE shot too: the other flag is the one whose divisor is 0 (or the one whose is not)
         out["again"] = []
         for b in (not bessel, bessel):
             o = _ev_once(m, op, b, held)
@@ -1441,6 +1566,28 @@ def _obs_parities(measurements, op, held=None):
     if len(measurements) <= 40000:
         out["again"] = [_parities_once(measurements, op, held)]
     out["earlier_intact"] = held.ok and held.intact()
+    return out
+
+
+def _obs_from_parities(np, pp, c):
+    """expectation values straight from parity tallies (a Parities object as its users build it: an N x 2 array, optionally the pair
+    tallies); asked twice on the same object"""
+    from orquestra.quantum.measurements import expectation_values as evm
+    vals = np.array(c["tallies"], dtype=c.get("dtype") or int).reshape(-1, 2)
+    corr = None
+    if c.get("pairs"):
+        nt = len(c["tallies"])
+        corr = [np.array([[[max(a[0] + a[1], b[0] + b[1]), 0] for b in c["tallies"]] for a in c["tallies"]], dtype=c.get("dtype") or int).reshape(nt, nt, 2)]
+    p = pp.Parities(vals, corr)
+    outs = []
+    for _ in range(2):
+        e = evm.get_expectation_values_from_parities(p)
+        cov = e.estimator_covariances
+        outs.append({"values": [_num(v) for v in np.asarray(e.values).tolist()],
+                     "cov": ["absent"] * len(c["tallies"]) if cov is None else [_num(np.asarray(x).reshape(-1)[0]) for x in cov],
+                     "arg_intact": np.asarray(p.values).tolist() == np.array(c["tallies"]).tolist()})
+    out = outs[0]
+    out["again"] = outs[1:]
     return out
 
 
@@ -1851,6 +1998,8 @@ def _run_impl(c):
         return _guard(lambda: _obs_freq(mm, c["marked"], c.get("marked_as") or c.get("as_set"), _counts_form(c["freq"], c.get("freq_as"), True)))
     if k == "bool_bits":
         return _obs_bool_bits(c)
+    if k == "from_parities":
+        return _guard(lambda: _obs_from_parities(np, pp, c))
     if k == "parity_vec":
         return _guard(lambda: _obs_parity_vec(np, pp, np.array(_tuples(c["rows"]), dtype=c.get("dtype") or int), c["marked"]))
     raise AssertionError("unknown kind")
@@ -2160,8 +2309,10 @@ def _judge(c, out):
     if k == "ev":
         ok, w = _domain(c)
         shots, n = c["shots"], len(c["shots"])
-        if not ok or n == 0:
-            return None  # non-Ising, qubit outside the register, no shots: the sample mean is undefined
+        if ok and n == 0:
+            return _judge_ev_zero_shots(c, out)
+        if not ok:
+            return None  # non-Ising, qubit outside the register: the sample mean is undefined
         if "err" in out:
             if w == 0:
                 return ("ev-width0-raises", f"get_expectation_values on {n} shots of width 0 with a constant operator raised {out}; "
@@ -2203,6 +2354,13 @@ def _judge(c, out):
                         return ("ev-covariance", f"covariance[{i}][{j}] reported {_showc(out['covariances'][i][j])}, "
                                 f"(correlation - product of means)/{den} = {_show(cov)} "
                                 f"(coefficients {_show(cs[i])}, {_show(cs[j])}; {n} shots, bessel={c['bessel']})")
+                elif len(out["covariances"][i]) != nt or out["covariances"][i][j] is not None:
+                    # divisor 0 (one shot, Bessel's correction): "(correlation - product of means) divided by N - 1" has no value;
+                    # nan / inf render that, a finite number does not
+                    got = out["covariances"][i][j] if len(out["covariances"][i]) == nt else None
+                    return ("ev-covariance-zero-divisor-finite", f"covariance[{i}][{j}] reported {_showc(got)} - a finite number - for {n} shot with "
+                            f"Bessel's correction: (correlation - product of means) = {_show(corr - means[i] * means[j])} is to be divided by "
+                            f"N - 1 = 0, the quotient has no value (nan / inf / an exception say so; the divisor was not N - 1)")
     elif k == "parities":
         ok, w = _domain(c)
         if not ok:
@@ -2289,6 +2447,12 @@ def _judge(c, out):
         freq = c["freq"]
         ws = {len(kk) for kk, _ in freq}
         tot = sum(v for _, v in freq)
+        if len(ws) <= 1 and tot == 0 and all(v == 0 for _, v in freq) and not any(q >= w for w in ws for q in c["marked"]):
+            # total 0: the weighted mean divides by 0 - an exception or nan / inf, never a finite number
+            if "err" not in out and out.get("value") is not None:
+                return ("freq-zero-total-finite", f"expectation {float(unrat(out['value']))!r} - a finite number - from frequencies whose total is 0: "
+                        "the mean of the eigenvalues weighted by the frequencies divides by their total, 0; it has no value")
+            return None
         if len(ws) != 1 or tot <= 0 or any(v < 0 for _, v in freq):
             return None
         w = ws.pop()
@@ -2302,12 +2466,64 @@ def _judge(c, out):
         if out["value"] is None or abs(unrat(out["value"]) - want) > _freq_tol(c):
             return ("freq-value", f"expectation {out['value'] if out['value'] is None else repr(float(unrat(out['value'])))}, "
                     f"weighted mean of eigenvalues {want} = {float(want)!r}")
+    elif k == "from_parities":
+        tallies = c["tallies"]
+        empty = [i for i, (e, o) in enumerate(tallies) if e + o == 0]
+        if "err" in out:
+            if empty:
+                return None  # a term without samples has no sample mean: refusing the tallies is a faithful answer
+            return ("parities-route-raises", f"get_expectation_values_from_parities raised {out} on tallies {tallies} (every term has samples)")
+        if len(out["values"]) != len(tallies):
+            return ("parities-route-shape", f"{len(tallies)} terms, {len(out['values'])} expectation values from the tallies")
+        for i, (e, o) in enumerate(tallies):
+            got = out["values"][i]
+            if e + o == 0:
+                if got is not None:
+                    return ("from-parities-zero-tally-finite", f"term {i} has tallies [0, 0] (no samples) and is reported the expectation value "
+                            f"{float(unrat(got))!r} - a finite number; (even - odd) / (even + odd) divides by 0 and has no value")
+                cv = out["cov"][i] if i < len(out["cov"]) else None
+                if cv is not None and cv != "absent":
+                    return ("from-parities-zero-tally-finite", f"term {i} has tallies [0, 0] (no samples) and is reported the estimator variance "
+                            f"{float(unrat(cv))!r} - a finite number; it is a quotient by the number of samples, 0")
+            else:
+                want = Fraction(e - o, e + o)
+                if got is None or abs(unrat(got) - want) > REL:
+                    return ("parities-route-value", f"term {i} (tallies {[e, o]}): the expectation value computed from the parity tallies is "
+                            f"{got if got is None else repr(float(unrat(got)))}, the sample mean of the eigenvalue is {want}")
     elif k == "parity_vec":
         if "err" in out:
             return ("parity-vec-raise", f"check_parity_of_vector raised {out}")
         want = [1 if sum(int(r[q]) for q in c["marked"]) % 2 == 0 else 0 for r in c["rows"]]
         if out["parity"] != want:
             return ("parity-vec", f"parity {out['parity']} expected {want}")
+    return None
+
+
+def _judge_ev_zero_shots(c, out):
+    """no shots: every sample mean is a sum over the shots divided by their number, 0 - it has no value.  An exception (what the
+    unchanged library does) or nan / inf entries are faithful, a finite number is not.  Not demanded: anything about a constant
+    term's own value / the correlation of two terms whose product is constant (the property gives a constant term exactly its
+    coefficient); with Bessel's correction the divisor is -1, so only entries built from a valueless mean are judged."""
+    if "err" in out:
+        return None
+    qs = [frozenset(q for q, _ in t["ops"]) for t in c["terms"]]
+    nt = len(qs)
+    vals, corr, cov = out.get("values") or [], out.get("correlations") or [], out.get("covariances") or []
+    for i in range(min(nt, len(vals))):
+        if qs[i] and vals[i] is not None:
+            return ("ev-zero-shots-finite", f"term {i} (qubits {sorted(qs[i])}): reported {_showc(vals[i])} - a finite number - as the expectation "
+                    "value from 0 shots; the sample mean divides by the number of shots, 0, and has no value")
+    for i in range(min(nt, len(corr))):
+        for j in range(min(nt, len(corr[i]))):
+            if (qs[i] ^ qs[j]) and corr[i][j] is not None:
+                return ("ev-zero-shots-finite", f"correlation[{i}][{j}] reported {_showc(corr[i][j])} - a finite number - from 0 shots; the sample "
+                        "mean of the product divides by the number of shots, 0")
+    for i in range(min(nt, len(cov))):
+        for j in range(min(nt, len(cov[i]))):
+            if cov[i][j] is not None and (not c["bessel"] or qs[i] or qs[j]):
+                return ("ev-zero-shots-finite", f"covariance[{i}][{j}] reported {_showc(cov[i][j])} - a finite number - from 0 shots "
+                        f"(bessel={c['bessel']}): " + ("built from sample means over 0 shots, which have no value" if c["bessel"] else
+                                                       "(correlation - product of means) is to be divided by the number of shots, 0"))
     return None
 
 
@@ -2330,6 +2546,12 @@ def distribution(cases, outs):
             "count_value_types": dict(Counter((c.get("counts_as") if c["kind"] == "add_counts" else c.get("freq_as")) or "int"
                                               for c in cases if c["kind"] in ("add_counts", "freq"))),
             "parity_array_dtypes": dict(Counter(c.get("dtype") or "int64" for c in cases if c["kind"] in ("parity_vec", "pv_history"))),
+            "degenerate_denominator_cases": dict(Counter(f"{c['kind']}:{c['degenerate']}" for c in cases if c.get("degenerate"))),
+            "ev_one_shot_bessel_queries": sum(1 for c, o in zip(cases, outs) if c["kind"] == "ev" and len(_norm(c)["shots"]) == 1 and isinstance(o, dict)
+                                              for q in [dict(o, bessel=c["bessel"])] + list(o.get("again") or []) if q.get("bessel") and "err" not in q),
+            "non_finite_reports": sum(1 for c, o in zip(cases, outs) if isinstance(o, dict) and
+                                      ((c["kind"] == "freq" and o.get("value", 0) is None) or
+                                       (c["kind"] == "ev" and any(x is None for row in (o.get("covariances") or []) for x in row)))),
             "max_terms": max((len(c.get("terms", [])) for c in cases), default=0),
             "histories": sum(1 for c in cases if c["kind"] in WALKS),
             "history_queries": sum(1 for c in cases if c["kind"] in WALKS for st in c["steps"] if st["do"] in QUERIES + ("query",)),
